@@ -221,7 +221,58 @@ def rule_jerk_homogeneity(ctx):
     ctx.covered('R01.9', 'dimension typing of reb_whfast_calculate_jerk: every accumulation into the jerk buffer is L T^-4, all other sums and comparisons homogeneous', n, floor=40, samples=samples)
 
 
+def rule_central_body_sums(ctx, rule='R01.10'):
+    """R01.10: in star-centred loops `for (i = 1; ...)` the acceleration (or velocity) of the central body, particles[0].a*,
+    is the sum of the contributions of all others. It is complete only after the loop; a statement of the same loop that
+    reads it (the jerk of the modified kick uses a_0 - a_i) sees a partial sum that depends on the particle order, and the
+    scheme silently loses orders of accuracy. Running sums over scalars (Jacobi interior masses) are prefix sums by design
+    and are not the subject of this rule: only fixed elements of particle arrays are."""
+    import glob, os
+    from .. import core
+    from . import reductions as R
+    n = 0
+    samples = []
+    for path in sorted(glob.glob(os.path.join(core.REPO, 'src', 'integrator_*.c')) + [os.path.join(core.REPO, 'src', 'gravity.c')]):
+        cfile = os.path.basename(path)
+        try:
+            tu = cfront.load_tu(cfile)
+        except Exception:
+            continue
+        for fname in sorted(tu.funcs):
+            fn = tu.func(fname)
+            if cfront.body(fn) is None or cfront.basename(fn.get('_locfile') or fn.get('_file')) != cfile:
+                continue
+            for f in R.loops(fn):
+                fixed = [a for a in _fixed_element_accumulators(f)]
+                if not fixed:
+                    continue
+                n += 1
+                for a, ln in R.invariant_accumulator_reads(f):
+                    if a in fixed:
+                        ctx.report(rule, '%s:partial:%s' % (fname, a), 'src/%s:%s %s' % (cfile, ln, fname),
+                                   '%s is still being accumulated by this loop when it is read here: the statement works with the contributions of the particles visited so far only (loop fusion moved a consumer into the accumulating loop)' % a)
+                if len(samples) < 5:
+                    samples.append('src/%s:%s %s accumulates %s' % (cfile, cfront.line_of(f), fname, sorted(set(fixed))[:3]))
+    ctx.covered(rule, 'loops that accumulate into a fixed particle element never read that element in the same loop', n, floor=8, samples=samples)
+
+
+def _fixed_element_accumulators(f):
+    from . import reductions as R
+    from ..cfront import walk, strip, render, is_assign
+    iv = R.loop_var(f)
+    out = set()
+    for e in walk(f['inner'][-1]):
+        if is_assign(e) and e['opcode'] in ('+=', '-='):
+            l0 = strip(e['inner'][0], casts=True)
+            if l0.get('kind') == 'MemberExpr':
+                b = strip(l0['inner'][0], casts=True)
+                if b.get('kind') == 'ArraySubscriptExpr' and strip(b['inner'][1], casts=True).get('kind') == 'IntegerLiteral':
+                    out.add(render(l0).replace(' ', ''))
+    return out
+
+
 def run(ctx):
+    rule_central_body_sums(ctx)
     rule_jerk_homogeneity(ctx)
     from . import c08
     c08.rule_direction(ctx)               # R08.8: sub-step loops (user ODEs, TRACE/MERCURIUS encounters) reach the step boundary for either direction
